@@ -11,7 +11,7 @@ from ..model import BUILTIN_EXC, Program
 from ._c16c17kit import *
 from ._kit_c16 import Exec, Evaluator, EvalRaised, BoolSpace, St, Closure, txt, src_of, mk_not, mk_and, mk_or, qual_name, contexts, flat_facts, callable_normal_form, free_names, Frame, RAISE, raise_leaf, tree_of
 from ._kit_c16 import _BUILTINS as EVAL_BUILTINS
-from ._kit_c16 import Interp, InterpFunction
+from ._kit_c16 import Interp, InterpFunction, StatefulEvaluator
 
 R = Rules(
     "C16",
@@ -1983,6 +1983,39 @@ def _check_quote_nonascii(ctx, ex, ev):
     ctx.ob("quote_nonascii keeps every ASCII byte and writes every other UTF-8 byte as %XX", bad is None, fi, node, detail=bad, construct="quote_nonascii result")
 
 
+class _AuthorityEvaluator(StatefulEvaluator):
+    """The evaluator of the composed authority.  On top of the closed expressions of `Evaluator` it *executes* (never
+    assumes a specification for) whatever package callable the authority is passed through: a module-level function
+    called by name (StatefulEvaluator), and a module-level *constant* whose value is a callable built by package code
+    (`_q = quote_factory(...)`: the closure a package factory returns; a module-level lambda).  This is
+    sound in both directions: the callable's own body decides the result on the concrete scenario values, so an
+    escaping step that is the identity on the scenarios' hosts (any spelling of it) stays silent and one that rewrites
+    an IP literal taken from the remote (or fails to escape a non-ASCII name) shows up as a wrong authority.  Only
+    hostportsplit / hostportjoin / quote_nonascii are taken by specification (placeholders in the environment); each of
+    them is checked against that specification by its own clause (C16.e, C16.g)."""
+
+    def _call(self, e, module, env):
+        f = e.func
+        if isinstance(f, ast.Name) and f.id not in env and f.id not in EVAL_BUILTINS and not getattr(f, "_local", False):
+            try:
+                v = self._name(f, module, env)
+            except NormError:
+                v = None
+        elif isinstance(f, ast.Call):
+            # the product of a factory called on the spot: `quote_factory(S)(host)`
+            v = self._ev(f, module, env)
+        else:
+            v = None
+        if v is not None:
+            if isinstance(v, InterpFunction) or (callable(v) and getattr(v, "__qualname__", "").startswith("Evaluator._ev.<locals>")):
+                if any(isinstance(a, ast.Starred) for a in e.args) or any(k.arg is None for k in e.keywords):
+                    raise NormError("star arguments")
+                return v(*[self._ev(a, module, env) for a in e.args], **{k.arg: self._ev(k.value, module, env) for k in e.keywords})
+            if isinstance(f, ast.Call):
+                raise NormError("call of the result of %s" % txt(f, 40))
+        return StatefulEvaluator._call(self, e, module, env)
+
+
 @R.clause("C16.g", "the authority composed by get_request_uri is the remote's hostinfo with Uri-Host / Uri-Port taking the place of host / port -- except for a response to a request sent to a group, whose authority is the responder's own endpoint, untouched by the request's options")
 def g(ctx):
     """Added after an independently written breaking change let the Uri-Host / Uri-Port override also rewrite the
@@ -1995,6 +2028,8 @@ def g(ctx):
     gex = Exec(prog)
     gev = Evaluator(prog)
     _check_quote_nonascii(ctx, gex, gev)
+    # conditions and the authority itself: package callables on the way are executed (see _AuthorityEvaluator)
+    gev = _AuthorityEvaluator(prog, Interp(prog))
     extra_params = params(gfi) + [a.arg for a in gfi.node.args.kwonlyargs]
     ctx.need(len(extra_params) == 1, "get_request_uri has parameters other than the (deprecated) local_is_server: %s" % extra_params)
     lis = extra_params[0]
@@ -2446,6 +2481,7 @@ R.seed("C16.g", F_M, "            if local_is_server:\n                netloc = 
 R.seed("C16.g", F_M, "                host = refmsg.opt.uri_host or host\n", "                host = host or refmsg.opt.uri_host\n", "Uri-Host never takes the place of the remote's host")
 R.seed("C16.g", F_M, "                port = refmsg.opt.uri_port or port\n", "                port = refmsg.opt.uri_port\n", "the remote's port is lost when only Uri-Host is present")
 R.seed("C16.g", F_M, "                escaped_host = quote_nonascii(host)\n", "                escaped_host = host\n", "non-ASCII Uri-Host reaches the URI unescaped")
+R.seed("C16.g", F_M, "                escaped_host = quote_nonascii(host)\n", "                escaped_host = quote_factory(unreserved + sub_delims)(host)\n", "a reg-name quoter also applied to the IP literal taken from the remote: '[ff02::fd]' + Uri-Port composes 'ff02%3A%3Afd:8683'")
 R.seed("C16.g", F_U, "chr(c) if c <= 127 else \"%%%02X\" % c for c in s.encode(\"utf8\")", "chr(c) if c <= 128 else \"%%%02X\" % c for c in s.encode(\"utf8\")", "quote_nonascii keeps the byte 0x80")
 F_T = "aiocoap/transports/tcp.py"
 R.seed("C16.i", F_T, "None if sockname[1] == self._ctx._default_port else sockname[1]", "None if sockname[1] == COAP_PORT else sockname[1]",
